@@ -301,7 +301,7 @@ def run_layouts(acc, wd, gi, rng, seed):
     (same include string, different sibling files) and through a trailing -I directory; alone vs together, every
     order. Whatever else is compiled in the same run, each input must produce the same bytes."""
     root = os.path.join(wd, 'l%d' % gi)
-    dirs = {n: os.path.join(root, n) for n in ('alpha', 'beta', 'gamma', 'inc0', 'inc1', 'shared', 'elsewhere')}
+    dirs = {n: os.path.join(root, n) for n in ('alpha', 'beta', 'gamma', 'inc0', 'inc1', 'inc2', 'inc3', 'shared', 'elsewhere')}
     for d in dirs.values():
         os.makedirs(d)
     # one file, reached through a symbolic link of the same name in every input directory; it includes ITS sibling
@@ -325,15 +325,18 @@ def run_layouts(acc, wd, gi, rng, seed):
     open(os.path.join(dirs['inc1'], 'common.prophy'), 'w').write(
         'const SHARED_LEN = %d;\nstruct Shared { u32 x; u8 y; };\n' % rng.randint(2, 5))
     open(os.path.join(dirs['inc0'], 'unused.prophy'), 'w').write('const UNUSED = 1;\n')
+    # later -I directories hold same-named, different files: the first directory on the command line that has it wins
+    open(os.path.join(dirs['inc2'], 'common.prophy'), 'w').write('const SHARED_LEN = 7;\nstruct Shared { u16 x; };\n')
+    open(os.path.join(dirs['inc3'], 'common.prophy'), 'w').write('const SHARED_LEN = 8;\nstruct Shared { u64 x; u8 y; };\n')
     results = {}
 
     def go(tag, names, hashseed='0', cwd=None):
         out = os.path.join(root, 'out_' + tag)
         os.makedirs(out)
-        args = ['--quiet', '-I', dirs['inc0'], '-I', dirs['inc1']]
+        args = ['--quiet', '-I', dirs['inc0'], '-I', dirs['inc1'], '-I', dirs['inc2'], '-I', dirs['inc3']]
         for o in OUTS:
             args += [o, out]
-        rc, so, se = pc.run_cli(args + [inputs[n] for n in names], cwd=cwd or root, hashseed=hashseed)
+        rc, so, se = pc.run_cli(args + [inputs[n.split('@')[0]] for n in names], cwd=cwd or root, hashseed=hashseed)
         acc.ev()
         acc.count('cli_runs')
         acc.count('layout_runs')
@@ -341,6 +344,8 @@ def run_layouts(acc, wd, gi, rng, seed):
         results[tag] = (rc, se, snapshot(out) if rc == 0 else None)
     for n in inputs:
         go('alone-' + n, [n])
+    for hs in ('1', '2', '3', 'random'):
+        go('alone-alpha@' + hs, ['alpha'], hashseed=hs)
     go('togetherFromElsewhere-alpha-gamma', ['alpha', 'gamma'], cwd=dirs['elsewhere'])
     import itertools
     orders = list(itertools.permutations(['alpha', 'beta', 'gamma']))
@@ -352,9 +357,9 @@ def run_layouts(acc, wd, gi, rng, seed):
             kind = 'alone' if tag.startswith('alone') else 'together'
             acc.violation(PROP, 'valid-inputs-fail-%s' % kind, {'run': tag, 'rc': rc, 'stderr': se[-500:], 'seed': seed})
             continue
-        if tag.startswith('alone'):
+        if tag.startswith('alone') and '@' not in tag:
             continue
-        for n in tag.split('-')[1:]:
+        for n in tag.split('@')[0].split('-')[1:]:
             ref = results['alone-' + n][2]
             if ref is None:
                 continue
@@ -363,7 +368,8 @@ def run_layouts(acc, wd, gi, rng, seed):
                     continue
                 acc.count('files_compared')
                 if snap.get(fn) != data:
-                    acc.violation(PROP, 'output-depends-on-other-inputs-of-the-run:%s' % fn.split('.', 1)[-1],
+                    acc.violation(PROP, ('output-differs:hashseed:%s' if '@' in tag else
+                                         'output-depends-on-other-inputs-of-the-run:%s') % fn.split('.', 1)[-1],
                                   {'run': tag, 'file': fn, 'seed': seed})
     shutil.rmtree(root, ignore_errors=True)
 
